@@ -122,8 +122,11 @@ package netconf
 //@   ensures #reader-started-only-on-success-with-a-settled-version result == nil ==> (d.SelectedVersion == "1.0" || d.SelectedVersion == "1.1")
 
 // ---- C03: sendRPC hands serialize the driver's settings, each in its own place, and writes exactly the framed bytes -------
-//@ func (*Driver).sendRPC [C03]
-//@   noverify
+//@ func (*Driver).sendRPC [C03 C05]
+//@   at call! WriteAndReturn#1 assert [C03] #exactly-the-framed-request-is-written-unredacted arg0 == serialized.framedXML && !arg1
+//@   at call WriteReturn#1 assert [C03] #an-extra-return-only-under-1.1-framing d.SelectedVersion == "1.1"
+//@   at call! NewNetconfResponse#1 assert [C03] #the-response-reports-the-bytes-that-were-framed arg0 == serialized.rawXML && arg1 == serialized.framedXML && arg4 == d.SelectedVersion
+//@   at call! NewTimer#1 assert [C05] #the-wait-for-the-reply-is-bounded-by-the-selected-timeout arg0 == (op.Timeout == -1 ? d.Channel.TimeoutOps : (op.Timeout == 0 ? 86400 * 1000000000 : op.Timeout))
 //@   flows [C03] #self-closing-setting-goes-to-its-parameter d.ForceSelfClosingTags only to serialize#1.forceSelfClosingTags
 //@   flows [C03] #header-setting-goes-to-its-parameter d.ExcludeHeader only to serialize#1.excludeHeader
 //@   flows [C03] #version-goes-to-its-parameter d.SelectedVersion only to serialize#1.v, NewNetconfResponse#1.version
@@ -168,3 +171,8 @@ package netconf
 //@   at call! sendRPC#1 assert #sent-with-options-built-from-the-callers-options arg1 != nil && isnew(arg1) && optlog == old(optlog) ++ applied(opts, box("*netconf.OperationOptions", arg1), len(opts)) && (len(opts) == 0 ==> arg1.Timeout == -1)
 //@ func (*Driver).RPC [C05]
 //@   at call! sendRPC#1 assert #sent-with-options-built-from-the-callers-options arg1 != nil && isnew(arg1) && optlog == old(optlog) ++ applied(opts, box("*netconf.OperationOptions", arg1), len(opts)) && (len(opts) == 0 ==> arg1.Timeout == -1)
+
+// the polling goroutine of sendRPC asks the reply store for exactly the id of its own request
+//@ func (*Driver).sendRPC$1 [C08]
+//@   requires done != nil && !closed(done)
+//@   at call! getMessage#1 assert #the-call-polls-the-store-for-its-own-message-id arg0 == m.MessageID
